@@ -103,7 +103,7 @@ func checkC11(c *Ctx) {
 	c.Rule(O1, "every continuation path reports on the result channel", 4)
 	c.Rule(O2, "API blocks only in a select with a ctx.Done() arm; result channel buffered", 4)
 	c.Rule(O3, "BLS/PS waits report expiry (thresholds in normal form) and callers honour it", 24)
-	c.Rule(O4, "context monitor armed before the waits, signalling under the lock; waits park only after a fresh context check", 10)
+	c.Rule(O4, "context monitor armed before the waits, signalling under the lock; waits park only after a fresh context check", 6)
 	c.Rule(P1, "explicit panics reachable from KeyGen/Sign have a frozen reason", 20)
 	c.Rule(G1, "adapter session loops have a ctx.Done() arm returning an error", 4)
 
@@ -265,7 +265,7 @@ func checkC11(c *Ctx) {
 				}
 				doneIdx := -1
 				for i, st := range sel.States {
-					if cl, ok := strip(st.Chan).(*ssa.Call); ok && cl.Call.IsInvoke() && cl.Call.Method.Name() == "Done" && strip(cl.Call.Value) == ssa.Value(fn.Params[1]) {
+					if cl, ok := strip(st.Chan).(*ssa.Call); ok && cl.Call.IsInvoke() && cl.Call.Method.Name() == "Done" && strip(cl.Call.Value) == strip(fn.Params[1]) {
 						doneIdx = i
 					}
 				}
@@ -333,8 +333,13 @@ func syncErrEdgeSkipper(sl *Slicer, fn *ssa.Function) func(b *ssa.BasicBlock, su
 // last wake-up (the monitor signals once; a wake-up that finds nobody parked is lost).
 func (d *dkgModel) ruleParkAfterCtxCheck(c *Ctx, rule string) {
 	m := d.m
+	doneFn := map[*ssa.Function]bool{}
 	for _, w := range d.waits {
-		fn := w.fn
+		fn := w.inner
+		if doneFn[fn] {
+			continue // one shared wait loop serves several phases
+		}
+		doneFn[fn] = true
 		for _, in := range instrsOf(fn) {
 			wc, ok := in.(*ssa.Call)
 			if !ok || !isCallTo(&wc.Call, "sync", "Cond.Wait") {
@@ -533,7 +538,7 @@ func auditPanics(c *Ctx, rule string, m *Module, pkg string, entries []*ssa.Func
 		txt := panicText(p)
 		reason := ""
 		for _, r := range panicReasons {
-			if strings.HasSuffix(fn, r.fnSuffix) && strings.HasPrefix(txt, r.text) {
+			if panicFnMatches(p.Parent(), r.fnSuffix) && strings.HasPrefix(txt, r.text) {
 				reason = r.reason
 				break
 			}
@@ -547,4 +552,29 @@ func auditPanics(c *Ctx, rule string, m *Module, pkg string, entries []*ssa.Func
 func isContextType(t types.Type) bool {
 	n, ok := t.(*types.Named)
 	return ok && n.Obj().Pkg() != nil && n.Obj().Pkg().Path() == "context" && n.Obj().Name() == "Context"
+}
+
+// panicFnMatches: a reason names the top-level function a panic belongs to; the panic may sit in that
+// function, in a function literal nested in it, or in a transparent helper inlined into it.
+func panicFnMatches(fn *ssa.Function, suffix string) bool {
+	base := suffix
+	if i := strings.Index(base, "$"); i >= 0 {
+		base = base[:i]
+	}
+	for f := fn; f != nil; {
+		name := FuncName(f)
+		if strings.HasSuffix(name, suffix) || strings.HasSuffix(name, base) {
+			return true
+		}
+		if f.Parent() != nil {
+			f = f.Parent()
+			continue
+		}
+		if c := helperCall(f); c != nil {
+			f = c.Parent()
+			continue
+		}
+		break
+	}
+	return false
 }
